@@ -544,7 +544,7 @@ func calculateObjectClassAndIsStatic(targetT base.T) (string, bool) {
 
 	switch len(beforeCode) {
 	case 0:
-		isStaticTarget = unicode.IsUpper(rune(target[0]))
+		isStaticTarget = len(target) > 0 && unicode.IsUpper(rune(target[0]))
 	default:
 		isStaticTarget = unicode.IsUpper(rune(beforeCode[0]))
 	}
